@@ -221,6 +221,14 @@ pub fn edge_cases() -> Vec<String> {
         "fn f() { 1 ;;; 2 }", ";;;", ",,,", "fn f(,) {}", "fn f(a,,b) {}", "struct A { ,a: u8 }",
         "enum E { , }", "use a::{,};", "fn f() { (,) }", "fn f() { [,] }", "fn f() { A { , } }",
         "fn f() { A { ..} }", "fn f() { A { ..a, } }", "fn f() { A { a: } }", "fn f() { let A { a, .. } = }",
+        // inputs of findings F1..F5 (regressions: every seed sees them)
+        "#fn", "$fn", "t::<:", "#((:", "$break$of", "k():y::<e:r:", "a1/ \u{e9}$match", "+ #fn", "#[a] $fn",
+        "pub a!();", "pub d{", "pub(crate) a!();", "#[x] pub a!{}",
+        "struct{pub", "struct A { pub }", "struct A { pub, a: u8 }", "struct A { pub(crate) }", "struct\u{e9}pub\n ",
+        "enum A { pub }", "trait T { pub }", "impl I of T { pub }", "mod m { pub }", "pub", "pub pub fn f() {}",
+        "fn{r($:", "#($:", "fn f() { g($a: 1) }", "fn f() { g($a::b: 1) }", "fn f() { A { $a: 1 } }",
+        "fn f(){'\\x\u{65e5}4'}", "fn f(){\"\\x\u{e9}\"}", "fn f(){'\\q'}", "fn f(){\"a\\q\u{e9}\"}", "fn f(){'\\u{110000}\u{e9}'}",
+        "fn f(){\"\u{e9}\\q\"}", "const A: felt252 = '\u{e9}\\x';", "'\\x\u{65e5}4'",
     ]
     .into_iter()
     .map(String::from)
